@@ -31,7 +31,7 @@ def main():
     wt = Path("/tmp/st") / name
     wt.parent.mkdir(exist_ok=True)
     sh(f"git -C /repo worktree remove --force {wt}")
-    rc, out = sh(f"git -C /repo worktree add --detach {wt} HEAD")
+    rc, out = sh(f"git -C /repo worktree add --detach {wt} {os.environ.get('SEEDBASE', 'HEAD')}")
     assert rc == 0, out
     res = {"name": name, "at_repo_commit": sh("git -C /repo rev-parse --short HEAD")[1].strip(), "time": time.strftime("%F %T")}
     try:
